@@ -1211,6 +1211,19 @@ impl StepMode {
                         _ => rng.range(1, 63) as u32,
                     };
                     let addr = if rng.chance(3, 4) { code_addr(rng, 2) } else { rng.u32() & 0x00ffffff & !1 };
+                    // the argument block may lie on the very memory the call writes: its address field on the GOT-save slot
+                    // H'FFFD10 + 4V (or the block across it), or on the vector slot 4V itself — both fields are read before anything
+                    // is written
+                    let mut argp = argp;
+                    if (1..=63).contains(&v) && rng.chance(1, 10) {
+                        argp = match rng.below(4) {
+                            0 => 0xfffd0c + 4 * v,
+                            1 => 0xfffd10 + 4 * v,
+                            2 => 0xfffd0e + 4 * v,
+                            _ => (4 * v).saturating_sub(4),
+                        };
+                        c.er[1] = argp;
+                    }
                     c.put(argp, &v.to_be_bytes());
                     c.put(argp + 4, &addr.to_be_bytes());
                     c.ccr &= 0x7f;
@@ -1590,6 +1603,8 @@ fn allowed_tags(prop: &str) -> &'static [&'static str] {
         "C14" => &["syscall", "sethandler"],
         "C15" => &["io", "hibyte", "wrapsum", "syscall", "sethandler", "sfr", "oddaddr", "overlap", "divzero", "divovf", "oddtarget", "pcwrap", "unmapped", "wrap", "badutf8"],
         "C07" => &["io", "hibyte", "syscall", "sethandler"],
+        // the charge of a word / long operand does not depend on the address being even (what such an access does to the state is left open)
+        "C20" => &["oddaddr"],
         _ => &[],
     }
 }
